@@ -1222,8 +1222,16 @@ def directed_histories():
             run("B", "yes"), run("B", "yes"),
             {"op": "tamper", "kind": "wipeB"},
             run("B", "deps"), run("B", "forced")]
+    # corrupt-artifact-retry: the artifact of lib is replaced by one whose content does not match its audit
+    # trail; the download is rejected, and so it must be when the very same build is simply repeated
+    prog2 = [run("A", "no", True),
+             {"op": "tamper", "kind": "corrupt", "target": ROOT + "/lib"},
+             run("B", "deps"), run("B", "deps"), run("B", "yes"), run("B", "forced-fallback")]
     return [("shared-checkout-two-wrong-predictions",
              {"states": [desc], "prog": prog, "fph": {"A": "h1", "B": "h1"},
+              "flags": {"A": ["download", "upload"], "B": ["download", "upload"]}}),
+            ("corrupt-artifact-retry",
+             {"states": [copy.deepcopy(desc)], "prog": prog2, "fph": {"A": "h1", "B": "h1"},
               "flags": {"A": ["download", "upload"], "B": ["download", "upload"]}})]
 
 
